@@ -194,6 +194,24 @@ def ops_case(cid, desc):
         elif r < 0.75:
             ops.append([0])
             ops.append([2, rng.randint(1, 4), 1])
+    # read -> failed seek -> read, at every level: position on a stored line, read a little, seek
+    # an absent timestamp of each kind (before everything, between two neighbours of each file,
+    # in the gap between the files, after everything), and keep reading.
+    if n >= 1:
+        absent = [1, grid_max]
+        for a, b in parts:
+            if b - a >= 2:
+                g = rng.randint(a + 1, b - 1)
+                absent.append(2 * g + 1)            # between lines g and g+1 of this file
+        if len(parts) == 2 and 0 < parts[0][1] < n:
+            absent.append(2 * parts[0][1] + 1)      # the gap between rotated and current file
+        for t in absent:
+            for _ in range(2):
+                g = rng.randint(1, n)
+                ops.append([1, 2 * g])
+                ops.append([2, rng.randint(1, 3), 1])
+                ops.append([1, t])
+                ops.append([2, rng.randint(1, 3), 1])
     return {"id": cid, "level": "file" if level == "file" else "reader", "mode": "ops", "files": files,
             "ops": ops, "tsmap": tsmap(grid_max + 2, rng), "seed": 0}
 
@@ -258,7 +276,7 @@ def edge_table(vec):
 
 def edge_ok(tab, n, e):
     k = (e["src"], e["act"], e["arg"], e["res"], e["line"])
-    return (k + (e["dst"],)) in tab or ((k + (-2,)) in tab and 0 <= e["dst"] <= n)
+    return (k + (e["dst"],)) in tab
 
 
 def has_empty_file(case):
@@ -464,7 +482,7 @@ def vacuity(res):
     c = cov_counts(res["props"]["out"])
     for what, snip in (("SeekStart", "/\\ cur' = N"), ("ReadNext eof", '/\\ out\' = Reply("read", 0, "eof", 0)'),
                        ("ReadNext line", '/\\ out\' = Reply("read", 0, "ok", cur)'),
-                       ("SeekFound", "/\\ cur' = Below(All, t) + 1"), ("SeekAbsentError", "/\\ cur' \\in 0..N"),
+                       ("SeekFound", "/\\ cur' = Below(All, t) + 1"), ("SeekAbsentError", "/\\ cur' = cur "),
                        ("SeekTooLateFallsBackToStart", '/\\ out\' = Reply("seek", t, "ok", 0)')):
         nth = 1 if what == "SeekTooLateFallsBackToStart" else 0
         snip = snip.replace("/\\ out' = Reply(\"read\"", "out' = Reply(\"read\"")
